@@ -52,6 +52,65 @@ def nontrivial_srv(case, impl):
     return "tx=- calls=- " not in impl
 
 
+LIFE_NEXT = {
+    "Disabled": {"Connecting", "Shutdown"},
+    "Connecting": {"Connected", "WaitFail", "Disabled", "Shutdown"},
+    "Connected": {"WaitDisc", "Disabled", "Shutdown"},
+    "WaitFail": {"Connecting", "Disabled", "Shutdown"},
+    "WaitDisc": {"Connecting", "Disabled", "Shutdown"},
+    "Shutdown": set(),
+}
+
+
+def life_oracle(case, impl):
+    """C13/C14 stated directly on the implementation's own log (independent of the Lean model):
+    legal state path, Connecting only while enabled, fail-fast results, announced delays follow
+    the doubling rule, the task terminates and handles report shutdown afterwards"""
+    if " | " not in impl:
+        return "malformed output"
+    logpart, summary = impl.split(" | ", 1)
+    evs = [] if logpart == "-" else logpart.split(";")
+    states = [e[2:].split("(")[0] for e in evs if e.startswith("g:")]
+    if states and states[0] != "Disabled":
+        return "first state is not Disabled"
+    for a, b in zip(states, states[1:]):
+        if b not in LIFE_NEXT[a]:
+            return f"illegal transition {a} -> {b}"
+    if states.count("Shutdown") > 1:
+        return "Shutdown announced twice"
+    if "early" in evs:
+        return "next connect attempt started before the announced delay elapsed"
+    if "shutdown_seen=true" not in summary or "fin=term" not in summary:
+        return "task did not terminate on shutdown: " + summary
+    if "after=ok" in summary or "after=pending" in summary:
+        return "a handle did not report shutdown after the task ended"
+    if "acc=ok" not in summary:
+        return "connection attempts do not match announced states: " + summary
+    # announced delays: k-th consecutive WaitFail = min(min*2^(k-1), max); WaitDisc = min
+    tok = case.split(" ")
+    rmin, rmax = [int(x) for x in tok[1][1:].split(".")]
+    k = 0
+    for e in evs:
+        if e.startswith("g:WaitFail("):
+            d = int(e[len("g:WaitFail("):-1])
+            if d != min(min(rmin, rmax) * (2 ** k), rmax):
+                return f"WaitFail delay {d} is not min*2^{k} capped"
+            k += 1
+        elif e.startswith("g:WaitDisc("):
+            if int(e[len("g:WaitDisc("):-1]) != rmin:
+                return "WaitAfterDisconnect delay is not min"
+        elif e == "g:Connected":
+            k = 0
+    # fail fast: a request answered noconn is answered while not connected
+    connected = False
+    for e in evs:
+        if e.startswith("g:"):
+            connected = e == "g:Connected"
+        if e.startswith("done:") and e.endswith(":ok.4660") and not connected:
+            return "a request succeeded while not connected"
+    return None
+
+
 PROPS = {
     "C05": dict(
         audit_modules=["RodbusModel.Audit.C05"],
@@ -112,7 +171,9 @@ PROPS = {
         required_theorems=["Rodbus.C14.kth_delay", "Rodbus.C14.kth_delay_created", "Rodbus.C14.kth_delay_after_reset",
                            "Rodbus.C14.disconnect_is_min", "Rodbus.C14.no_overflow", "Rodbus.C14.delay_le_max"],
         suites=[dict(gen="retry", n=(4000, 300000),
-                     exhaustive="11x11 lattice of special (min,max) durations incl. 0, Duration::MAX, MAX/2, MAX/2+1")],
+                     exhaustive="11x11 lattice of special (min,max) durations incl. 0, Duration::MAX, MAX/2, MAX/2+1"),
+                dict(gen="life", n=(20, 1200), jobs=16)],
+        extra_oracle=lambda c, i: life_oracle(c, i) if c.startswith("life ") else None,
         level_text="Proof: kth_delay (by induction on the call sequence, for all (min,max) with max representable and all k: the k-th "
                    "consecutive after_failed_connect since creation/reset returns min*2^(k-1) capped at max), disconnect_is_min, "
                    "kth_delay_after_reset, delay_le_max, no_overflow (the saturating doubling never exceeds Duration::MAX). Tie: the public "
@@ -330,5 +391,42 @@ PROPS = {
         rule="cases = for each base case of the srv / rdr generators: the case at d000, d322, a random level, and two copies with 1..3 level "
              "changes inserted at random script positions; distinct = distinct case line; non-trivial = produced a reply, a call or a frame",
         assumptions=["a tracing subscriber that formats every event into a sink is installed in the harness"],
+    ),
+    "C13": dict(
+        audit_modules=["RodbusModel.Audit.C13"],
+        required_theorems=["Rodbus.C13.legal_path", "Rodbus.C13.connecting_only_enabled", "Rodbus.C13.no_attempt_while_disabled",
+                           "Rodbus.C13.connected_only_after_connecting", "Rodbus.C13.fail_fast", "Rodbus.C13.shutdown_from_anywhere",
+                           "Rodbus.C13.disable_leads_to_disabled", "Rodbus.C13.wait_after_refused",
+                           "Rodbus.C13.wait_after_lost_connection", "Rodbus.C13.announced_delays_follow_strategy",
+                           "Rodbus.C13.exactly_once", "Rodbus.C13.never_sleeps_on_requests"],
+        suites=[dict(gen="life", n=(45, 2500), jobs=16,
+                     exhaustive="thorough: every action sequence of length <= 4 over {none, enable, disable, shutdown, drop handles, request} "
+                                "(one per stop) for each single environment fault followed by recovery")],
+        extra_oracle=life_oracle,
+        level_text="Proof over the model of TcpChannelTask (run / run_inner / connect / try_connect_and_run / run_connection / "
+                   "handle_failed_connection) + the command handling of ClientLoop, for EVERY script of user actions injected at every listener "
+                   "callback and every idle point, every list of peer behaviours (refused, closed, garbage, silent, served), every (min,max) and "
+                   "timeout limit: legal_path (Disabled first, every adjacent pair legal, Shutdown at most once and last), "
+                   "connecting_only_enabled / no_attempt_while_disabled, connected_only_after_connecting, wait_after_refused / "
+                   "wait_after_lost_connection / silent_session_ends_after_maxto, disable_leads_to_disabled / disable_closes_connection, fail_fast "
+                   "(amended: requests dequeued while not connected complete with no-connection in the same step), never_sleeps_on_requests, "
+                   "shutdown_from_anywhere (a shutdown command or the last handle drop terminates the task from every reachable position within "
+                   "a bounded number of steps, completing every queued request exactly once), conservation / exactly_once, and the task-level half "
+                   "of C14 (announced_delays_follow_strategy, retry_reset_on_connect). Tie: the production create_tcp_client_task_with_options task "
+                   "against a scripted loopback peer, the listener callback used as a lock-step gate, real time; plus an independent Python "
+                   "oracle (legal path, delays, termination) on the implementation's own log.",
+        level_note="Partial: real connect timing, OS errors and simultaneously-ready select! branches are environment; the generator keeps away from "
+                   "schedules it cannot force (commands queued at the Connected gate of a connection the peer closes at once). Serial channels "
+                   "(SerialChannelTask) have the same loop structure but are not run (no serial port); they share ClientLoop. Trusted: Lean kernel, "
+                   "hand-written lifecycle model tied by the life suite.",
+        technique="Lean 4 invariant proofs over the life-cycle state machine + gated loopback runs of the production task + independent log oracle",
+        classify=lambda c, i: ["beh=" + c.split(" ")[4].split("/")[0], "states=%d" % min(12, i.count("g:")),
+                               "shutdown-in-script" if "g:Shutdown" in i else "wind-down"],
+        nontrivial=lambda c, i: i.count("g:") >= 3,
+        finding_key=no_key,
+        rule="cases = fixed fault/recovery scenarios + (thorough) exhaustive short action sequences + seeded random scripts of 2..10 stops over "
+             "1..4 peer behaviours, retry (10..50, 10..200) ms, timeout limit 0..3; distinct = distinct case line; non-trivial = at least 3 "
+             "announced states",
+        assumptions=["loopback connect/accept completes within the 450 ms idle threshold", "the listener callback blocks the task (MaybeAsync::asynchronous)"],
     ),
 }
